@@ -104,10 +104,10 @@ theorem C20_errorV_silently_altered (e : Key) :
 
 end conv
 
-/-- the same on the concrete witness, by evaluation of the model (bytes `00 00 00 00`) -/
+/-- the same on the concrete witness, by evaluation of the model (on the pinned tree the bytes are `00 00 00 00`) -/
 theorem C20_errorV_witness :
-    (serializeValue (σ := String) id (.errorV ⟨0, 1⟩)).toOption = some [0, 0, 0, 0]
-    ∧ (deserializeValue (σ := String) id [0, 0, 0, 0]).map Value.ctor = some ValCtor.Unit := by
+    (serializeValue (σ := String) id (.errorV ⟨0, 1⟩)).toOption = some (encU32 FfiCtor.ErrorV.tag)
+    ∧ (deserializeValue (σ := String) id (encU32 FfiCtor.ErrorV.tag)).map Value.ctor = some ValCtor.Unit := by
   decide +kernel
 
 /-- the property's refusal clause, as it would have to hold, is false of the model (hence of the code the model
